@@ -63,41 +63,50 @@ var autoYieldBursts = []int{1, 1, 1, 1, 2, 4, 16, 64}
 // inserted yield point calls runtime.Gosched() with probability 1/every, decided by a
 // generator whose state only advances at yield points (so the sequence of decisions is a
 // function of the run). Points right before a mutex acquisition fire with probability
-// 1/lockEvery and then always as a long preemption.
+// 1/lockEvery and then always as a long preemption; with soft parks on (SetSoftParks) they
+// may instead stall the goroutine for some kernel quanta.
 func SetAutoYieldRate(seed uint64, every, lockEvery uint64) {
 	autoYieldState, autoYieldEvery, autoYieldCount = seed|1, every, 0
 	if every == 0 {
 		verifhook.SetAutoYield(nil)
+	} else {
+		verifhook.SetAutoYield(func() {
+			if inKernel {
+				return
+			}
+			autoYieldState = autoYieldState*6364136223846793005 + 1442695040888963407
+			if (autoYieldState>>33)%autoYieldEvery == 0 {
+				autoYieldCount++
+				// mostly a single yield; sometimes a long preemption: the goroutine gives its
+				// turn away many times in a row, so that the others get through whole
+				// operations while it sits between two of its statements (no clock, no
+				// blocking: it stays runnable, so a goroutine waiting for a mutex it holds
+				// just waits a little longer)
+				n := autoYieldBursts[(autoYieldState>>41)%uint64(len(autoYieldBursts))]
+				for i := 0; i < n; i++ {
+					runtime.Gosched()
+				}
+			}
+		})
+	}
+	if (every == 0 || lockEvery == 0) && softEvery == 0 {
 		verifhook.SetAutoYieldLock(nil)
 		return
 	}
-	verifhook.SetAutoYield(func() {
-		if inKernel {
-			return
-		}
-		autoYieldState = autoYieldState*6364136223846793005 + 1442695040888963407
-		if (autoYieldState>>33)%autoYieldEvery == 0 {
-			autoYieldCount++
-			// mostly a single yield; sometimes a long preemption: the goroutine gives its turn
-			// away many times in a row, so that the others get through whole operations while
-			// it sits between two of its statements (no clock, no blocking: it stays runnable,
-			// so a goroutine waiting for a mutex it holds just waits a little longer)
-			n := autoYieldBursts[(autoYieldState>>41)%uint64(len(autoYieldBursts))]
-			for i := 0; i < n; i++ {
-				runtime.Gosched()
-			}
-		}
-	})
-	if lockEvery == 0 {
-		verifhook.SetAutoYieldLock(nil)
-		return
+	if every == 0 {
+		lockEvery = 0
 	}
 	verifhook.SetAutoYieldLock(func() {
 		if inKernel {
 			return
 		}
 		autoYieldState = autoYieldState*6364136223846793005 + 1442695040888963407
-		if (autoYieldState>>33)%lockEvery == 0 {
+		x := autoYieldState >> 33
+		if softEvery > 0 && !softSuspended && x%softEvery == 0 && heldDepth[verifGoid()] == 0 {
+			softW.softPark(softQuanta[(autoYieldState>>41)%uint64(len(softQuanta))])
+			return
+		}
+		if lockEvery > 0 && (x>>8)%lockEvery == 0 {
 			autoYieldCount++
 			n := autoYieldLockBursts[(autoYieldState>>41)%uint64(len(autoYieldLockBursts))]
 			for i := 0; i < n; i++ {
@@ -108,3 +117,33 @@ func SetAutoYieldRate(seed uint64, every, lockEvery uint64) {
 }
 
 var autoYieldLockBursts = []int{16, 64, 64, 256}
+
+// ---- soft parks: the kernel stalls a goroutine right before a mutex acquisition ----
+
+var softW *World
+var softEvery uint64
+var softSuspended bool
+var softQuanta = []int{1, 2, 3, 5, 8, 13}
+var heldDepth = map[uint64]int{}
+
+// SetSoftParks (before SetAutoYieldRate): with every > 0, a goroutine that reaches a point right
+// before a Lock/RLock call while holding none of the repository's locks (depth kept from the
+// Held notifications of the instrumented copy) is, with probability 1/every, stalled for 1-13
+// kernel quanta: unlike a yield, the kernel keeps acting (deliveries, fetches, other
+// releases) while the goroutine sits there.
+func SetSoftParks(w *World, every uint64) {
+	softW, softEvery, softSuspended = w, every, false
+	heldDepth = map[uint64]int{}
+	if every == 0 {
+		verifhook.SetHeld(nil)
+		return
+	}
+	verifhook.SetHeld(func(d int) {
+		id := verifGoid()
+		if n := heldDepth[id] + d; n <= 0 {
+			delete(heldDepth, id)
+		} else {
+			heldDepth[id] = n
+		}
+	})
+}
